@@ -127,13 +127,16 @@ def run(prog: Program, res: Result) -> None:
                             f"{f.qualname}: {msg} - every per-slot elitism classification rests on this"))
     g = prog.func(f"{ABSTRACT}._greedy_select_population")
     issues = check_population_helpers(prog)
+    for (rule, node, msg) in [i_ for i_ in issues if i_[0] == "UNDECIDED"]:
+        res.errors.append(msg + " (undecided)")
+    issues = [i_ for i_ in issues if i_[0] != "UNDECIDED"]
     res.ob(not issues, "base trims / sorted pairing as specified", "population-helpers")
     for (rule, node, msg) in issues:
         res.add(Finding(P, f"C17.R2-{rule.split('-', 1)[1]}", construct_key(prog, node, g.module), f"{g.module.relpath}:{node.lineno}", msg))
     from ..ord import L, OrdDeviation, OrdUnknown, evaluate
     from ..sgn import MIN
     try:
-        got, _ = evaluate(prog, "sort_and_trim", MIN)
+        got, _ = evaluate(prog, "sort_and_trim", MIN, ok=lambda g: isinstance(g, L) and g.order == "ASC" and g.window[0] == "FIRST")
         ok = isinstance(got, L) and got.order == "ASC" and got.window[0] == "FIRST"
         res.ob(ok, f"sort_and_trim = {got.show() if isinstance(got, L) else got}", "sort_and_trim")
         if not ok:
